@@ -3,6 +3,7 @@ package ckks
 import (
 	"encoding/json"
 	"fmt"
+	"io"
 	"math"
 	"math/big"
 
@@ -321,6 +322,36 @@ func (p Parameters) MarshalBinary() ([]byte, error) {
 // UnmarshalBinary decodes a []byte into a parameter set struct
 func (p *Parameters) UnmarshalBinary(data []byte) (err error) {
 	return p.UnmarshalJSON(data)
+}
+
+// BinarySize returns the serialized size of the object in bytes.
+func (p Parameters) BinarySize() int {
+	b, _ := p.MarshalJSON()
+	return len(b)
+}
+
+// WriteTo writes the object on an [io.Writer]. It implements the [io.WriterTo]
+// interface, and will write exactly object.BinarySize() bytes on w: the same
+// bytes as [Parameters.MarshalBinary] (the methods of the embedded
+// [rlwe.Parameters] would encode the scheme-agnostic part only).
+func (p Parameters) WriteTo(w io.Writer) (n int64, err error) {
+	b, err := p.MarshalJSON()
+	if err != nil {
+		return 0, err
+	}
+	inc, err := w.Write(b)
+	return int64(inc), err
+}
+
+// ReadFrom reads on the object from an [io.Reader]. It implements the
+// [io.ReaderFrom] interface and reads exactly the bytes of one object written
+// by [Parameters.WriteTo] or [Parameters.MarshalBinary].
+func (p *Parameters) ReadFrom(r io.Reader) (n int64, err error) {
+	b, err := rlwe.ReadJSONObject(r)
+	if err != nil {
+		return int64(len(b)), err
+	}
+	return int64(len(b)), p.UnmarshalJSON(b)
 }
 
 // MarshalJSON returns a JSON representation of this parameter set. See Marshal from the [encoding/json] package.
